@@ -123,6 +123,48 @@ pub fn c17(tier: &str, seed: u64) {
     case(true);
     stat("oracle.C17.create_share_thresholds_beyond_16_bits");
   }
+  // CONCURRENT callers (native embedders call from several threads): while one thread groups a large
+  // bucket, others group small ones - every call with threshold-many distinct shares gets the key
+  {
+    let mk = |m: &[u8], t: u32, ep: &str| -> Option<(Vec<String>, String)> {
+      let made: Vec<Created> = (0..t).filter_map(|_| checked_create(m, t, ep)).collect();
+      if made.len() != t as usize {
+        return None;
+      }
+      Some((made.iter().map(|c| c.share_b64.clone()).collect(), made[0].key_b64.clone()))
+    };
+    if let (Some((big, bigk)), Some((small, smallk))) = (mk(b"large bucket", 160, "ep"), mk(b"small bucket", 3, "ep")) {
+      let big_ser = big.join("\n");
+      let small_ser = small.join("\n");
+      let stop = std::sync::Arc::new(std::sync::atomic::AtomicBool::new(false));
+      let (s2, bs, bk) = (stop.clone(), big_ser.clone(), bigk.clone());
+      let worker = std::thread::spawn(move || {
+        let mut bad = 0usize;
+        let mut calls = 0usize;
+        while !s2.load(std::sync::atomic::Ordering::Relaxed) && calls < 200 {
+          if group_guarded(&bs, "ep").ok().flatten().as_deref() != Some(&bk) {
+            bad += 1;
+          }
+          calls += 1;
+        }
+        (bad, calls)
+      });
+      let others: Vec<_> = (0..3)
+        .map(|_| {
+          let (ss, sk) = (small_ser.clone(), smallk.clone());
+          std::thread::spawn(move || (0..40).filter(|_| group_guarded(&ss, "ep").ok().flatten().as_deref() != Some(&sk)).count())
+        })
+        .collect();
+      let small_bad: usize = others.into_iter().map(|h| h.join().expect("thread")).sum();
+      stop.store(true, std::sync::atomic::Ordering::Relaxed);
+      let (big_bad, big_calls) = worker.join().expect("thread");
+      if small_bad > 0 || big_bad > 0 {
+        fail("group_shares_missed_key", &[("what", "concurrent calls from several threads".into()), ("small_bucket_calls_without_the_key", format!("{} of 120", small_bad)), ("large_bucket_calls_without_the_key", format!("{} of {}", big_bad, big_calls)), ("thresholds", "160 and 3".into())]);
+      }
+      case(true);
+      stat("oracle.C17.concurrent_callers");
+    }
+  }
   let n = if quick(tier) { 1500 } else { 15000 };
   for case_i in 0..n {
     let t: u32 = match case_i % 8 {
